@@ -246,6 +246,24 @@ def _lrepr_nil(_: None, **__) -> str:
     return "nil"
 
 
+# The escape sequences understood by the reader's string syntax (the inverse of
+# ``basilisp.lang.reader._STR_ESCAPE_CHARS``). Every other character is printed as
+# itself, so that the reader reads back exactly the string that was printed.
+_STR_ESCAPES = str.maketrans(
+    {
+        '"': '\\"',
+        "\\": "\\\\",
+        "\a": "\\a",
+        "\b": "\\b",
+        "\f": "\\f",
+        "\n": "\\n",
+        "\r": "\\r",
+        "\t": "\\t",
+        "\v": "\\v",
+    }
+)
+
+
 @lrepr.register(str)
 def _lrepr_str(
     o: str, human_readable: bool = False, print_readably: bool = PRINT_READABLY, **_
@@ -254,8 +272,7 @@ def _lrepr_str(
         return o
     if print_readably is None or print_readably is False:
         return o
-    escaped = o.encode("unicode_escape").replace(b'"', rb"\"").decode("utf-8")
-    return f'"{escaped}"'
+    return f'"{o.translate(_STR_ESCAPES)}"'
 
 
 @lrepr.register(list)
